@@ -128,6 +128,31 @@ def run(ctx):
     t = src(pc)
     ok = ok and "command = dedent(command).strip()" in t and t.rstrip().endswith("return command")
     r4.check(ok, f"{m.rel}:prepare_command", "the default shell is not prepended exactly when the dedented text lacks a shebang", m.rel, pc.lineno)
+    # ---- C29.5 the command text handed to a container executor is the one that is staged ----------
+    # Scratch paths are keyed by the job's eval hash; the text a script task returns is not part of that key (it can come from unhashed helpers).
+    # Whatever get_script_task_command / get_oneshot_command are given must therefore be written every time -- a file that already exists under
+    # that path holds the text (or pickled arguments) of an earlier submission.
+    r5 = ctx.rule("C29.5", "executor command builders write the command / input file unconditionally", floor=2)
+    from ..filerules import existence_gated_writes
+
+    cmdm = repo.mod("redun/executors/command.py")
+    nw = 0
+    for q in ("get_script_task_command", "get_oneshot_command"):
+        fn = cmdm.func(q)
+        writes = [c for c in calls_in(fn) if isinstance(c.func, ast.Attribute) and (c.func.attr == "write" or (c.func.attr == "open" and any(isinstance(a, ast.Constant) and isinstance(a.value, str) and "w" in a.value for a in c.args)))]
+        nw += len(writes)
+        gated = existence_gated_writes(cmdm, fn)
+        r5.check(
+            bool(writes) and not gated,
+            f"{cmdm.rel}:{q}:input-written-every-time",
+            (f"{q} writes the job's input/command file only when `{gated[0][1]}` is false" if gated else f"{q} no longer writes the job's input/command file")
+            + ": the scratch path is keyed by the eval hash, which does not cover the command text of a script task, so a re-submission with a different text (retry after fixing a helper, cache=False) "
+            "stages and runs the text of the earlier submission",
+            cmdm.rel,
+            gated[0][0].lineno if gated else fn.lineno,
+        )
+    if nw < 2:
+        raise AnalysisError("command builders: input-file writes not found", "redun/executors/command.py")
 
 
 def _collapsing_step(fn, e, spec, seen):
